@@ -933,6 +933,24 @@ func lookupSite(tab map[string]siteJust, k string) (siteJust, bool) {
 	if j, ok := tab[k]; ok {
 		return j, true
 	}
+	// closure numbers are not part of a site's identity: "F$2/kind/msg" and "F$1/kind/msg" are the same site of F
+	norm := func(s string) string {
+		if i := strings.Index(s, "/log.") + strings.Index(s, "/panic") + strings.Index(s, "/os.Exit"); i > -3 {
+			for _, sep := range []string{"/log.", "/panic", "/os.Exit"} {
+				if j := strings.Index(s, sep); j >= 0 {
+					return stripAnon(s[:j]) + s[j:]
+				}
+			}
+		}
+		return s
+	}
+	nk := norm(k)
+	for tk, j := range tab {
+		ntk := norm(tk)
+		if ntk == nk || (len(nk) >= 8 && strings.HasPrefix(ntk, nk) && len(ntk)-len(nk) <= 4 && !strings.HasSuffix(nk, "/")) {
+			return j, true
+		}
+	}
 	for tk, j := range tab {
 		if len(k) >= 8 && strings.HasPrefix(tk, k) && len(tk)-len(k) <= 4 && !strings.HasSuffix(k, "/") {
 			return j, true
